@@ -246,8 +246,8 @@ def gen_pair(rng, nitems=None, nsteps=None):
     w = ghw_writer.Writer(rng, big_endian=rng.random() < 0.3, version=rng.choice([0, 1]))
     ghw = w.serialise(items, g.natoms, g.kinds, snap, steps)
     times = [snap[0]] + [t for t, _ in steps]
-    unit = "ps" if all(t % 1000 == 0 for t in times) and rng.random() < 0.6 else "fs"
-    vcd = vcd_writer.render(rng, items, g.natoms, snap, steps, unit=unit)
+    exp = -12 if all(t % 1000 == 0 for t in times) and rng.random() < 0.6 else -15
+    vcd = vcd_writer.render(rng, items, g.natoms, snap, steps, exp=exp)
     return ghw_writer.design_tokens(items, g.natoms, snap, steps), ghw, vcd
 
 
@@ -268,10 +268,19 @@ def gen_triple(rng, nitems=None, nsteps=None):
         if g.natoms > 0:
             break
     snap, steps = g.rand_wave(nsteps if nsteps is not None else rng.choice([0, 2, 6, 15]))
+    # coarser files: all times become multiples of 10^k fs, so that VCD / FST may use any unit up to 10^k fs
+    k = rng.choice([0, 0, 3, 3, 6, 9]) if rng.random() < 0.6 else rng.randint(0, 15)
+    while max([snap[0]] + [t for t, _ in steps]) * 10 ** k >= 2 ** 62:
+        k -= 1
+    snap = (snap[0] * 10 ** k, snap[1])
+    steps = [(t * 10 ** k, ch) for t, ch in steps]
     w = ghw_writer.Writer(rng, big_endian=rng.random() < 0.3, version=rng.choice([0, 1]))
     ghw = w.serialise(items, g.natoms, g.kinds, snap, steps)
     times = [snap[0]] + [t for t, _ in steps]
-    ps_ok = all(t % 1000 == 0 for t in times)
-    vcd = vcd_writer.render(rng, items, g.natoms, snap, steps, unit="ps" if ps_ok and rng.random() < 0.6 else "fs")
-    fst = fst_writer.render(rng, items, g.natoms, snap, steps, unit="ps" if ps_ok and rng.random() < 0.6 else "fs")
-    return ghw_writer.design_tokens(items, g.natoms, snap, steps), ghw, vcd, fst
+    kk = k
+    while kk < 15 and all(t % 10 ** (kk + 1) == 0 for t in times):
+        kk += 1
+    vcd = vcd_writer.render(rng, items, g.natoms, snap, steps, exp=-15 + rng.randint(0, kk))
+    fexp = -15 + rng.randint(0, kk)
+    fst = fst_writer.render(rng, items, g.natoms, snap, steps, exp=fexp)
+    return ghw_writer.design_tokens(items, g.natoms, snap, steps), ghw, vcd, fst, fexp
